@@ -162,6 +162,10 @@ def run(tier):
                 if flavour == "sync":
                     while gw.tasks.queue:
                         gw.tasks.transport.send(gw.tasks.run_job())
+                # the cover must hold after EVERY step, not only at the end of the history
+                S.append([inp, sorted(str(n) for n, s_ in gw.sensors.items() if s_.children),
+                          sorted([str(n), str(c)] for n, s_ in gw.sensors.items() for c in s_.children),
+                          [t.split("/") for t, _ in subs]])
         except Exception:  # pylint: disable=broad-except
             pump_dead = 1
         nodes = sorted(str(n) for n, s in gw.sensors.items() if s.children)
